@@ -286,6 +286,9 @@ def check(repo, rep, tier):
     rule_width(repo, r1)
     r2 = rep.rule("R-C16-2", "decomposition obligations of to_bits / from_bits", floor=5)
     rule_decomposition(repo, r2)
+    r5 = rep.rule("R-C16-5", "the global bitlength is read at call time (widths independent of import-time state)", floor=1)
+    from .c14 import config_read_at_call_time
+    config_read_at_call_time(repo, r5, RT, "bitlength", "default width")
     r3 = rep.rule("R-C16-3", "packer length algebra", floor=10)
     r4 = rep.rule("R-C16-4", "packer range checks", floor=2)
     rule_packers(repo, r3, r4)
